@@ -173,7 +173,7 @@ def knobs(rng):
 
 def plan(tier, seed):
     quick = tier == "quick"
-    return {"nshards": 16, "params": {"soft_s": 1500 if quick else 5400, "nprograms": 40 if quick else 400, "script_len": 8 if quick else 16, "ninputs": 8 if quick else 16}, "hard_timeout_s": 2700 if quick else 9000}
+    return {"nshards": 16, "params": {"soft_s": 1500 if quick else 5400, "nprograms": 40 if quick else 160, "script_len": 8 if quick else 12, "ninputs": 8 if quick else 16}, "hard_timeout_s": 2700 if quick else 9000}
 
 
 def shard(ctx):
